@@ -816,6 +816,19 @@ def check(run: common.Run):
     example = {}
     notes = []
 
+    def crashed(site, stage, inp, e, **extra):
+        """an exception out of the real code is a failing input by itself (the stage did not return a program)"""
+        if sum(1 for f in failing if f.get("crash")) < 20:
+            failing.append({"site": site, "stage": stage, "input": inp, "crash": True,
+                            "problem": f"exception {type(e).__name__}: {e}", **extra})
+
+    def safe_prepass(pr, s):
+        try:
+            return pr.prepass(s)
+        except Exception as e:  # noqa
+            crashed("main.format_code (pre-pass)", "prepass", s, e)
+            return None
+
     files, meta = [], {}
     disagreements_early = []
 
@@ -834,7 +847,12 @@ def check(run: common.Run):
     lap('proof step')
     with Probe(mods) as pr:
         # ---- 1. text stages, exhaustive small scope (seed independent)
-        pats = pr.patterns()
+        try:
+            pats = pr.patterns()
+        except Exception as e:  # noqa
+            crashed("fixes.fix_too_many_blank_lines", "blank_lines", "a\n", e)
+            pr.in_ftmbl = False
+            pats = []
         if len(pats) != 3:
             failing_shape = f"fix_too_many_blank_lines makes {len(pats)} re.sub calls"
             run.violation({"kind": "correspondence", "kernel": "K12", "detail": failing_shape,
@@ -855,7 +873,7 @@ def check(run: common.Run):
         n_short = len(strs)
         sitems, sinfo, ritems, rinfo = [], [], [], []
         for s in strs:
-            r = pr.prepass(s)
+            r = safe_prepass(pr, s)
             if r is None:
                 continue
             if not (r["rmspace"][0] == r["expandtabs"][1] and r["sub1"][0] == r["rmspace"][1]
@@ -898,7 +916,7 @@ def check(run: common.Run):
             if not valid(s):
                 hist["module:invalid"] += 1
                 continue
-            r = pr.prepass(s)
+            r = safe_prepass(pr, s)
             if r is None:
                 continue
             consistent = (r["rmspace"][0] == r["expandtabs"][1] and r["sub1"][0] == r["rmspace"][1]
@@ -957,7 +975,7 @@ def check(run: common.Run):
             if not valid(s):
                 continue
             lls = LINE_LENGTHS if (not quick or idx % 4 == 0) else [LINE_LENGTHS[(idx * 7) % len(LINE_LENGTHS)], 100]
-            r = pr.prepass(s)
+            r = safe_prepass(pr, s)
             pre = r["prepass"][1] if r else s
             mask = literal_mask(s)
             for ll in dict.fromkeys(lls):
@@ -996,6 +1014,33 @@ def check(run: common.Run):
         pr.record_restores = False
         pr.record_frames = False
         post_calls = len(pitems)
+
+        # ---- 3a. indented snippets: format_code dedents them (main.py: minimum_indent = indentation_level,
+        # textwrap.dedent) and re-indents the result at the end -- the same frame as FrameModel (T11.9): the
+        # result, dedented, must have the syntax tree of the dedented input and sit at the same indentation
+        import textwrap as _tw
+        snrnd = random.Random(SWEEP_SEED + 1)
+        n_snip = 0
+        for i in range(12 if quick else 120):
+            base = gen_module(snrnd, dirty=False, odd_indent=False, cont=False)
+            for kk in (1, 2, 4):
+                sn = _tw.indent(base, " " * kk)
+                if valid(sn) or not valid(base):
+                    continue
+                n_snip += 1
+                try:
+                    out, _ = pr.full(sn)
+                except Exception as e:  # noqa
+                    crashed("main.format_code", "format_code", sn, e)
+                    continue
+                ok = (ast_key(_tw.dedent(out)) == ast_key(base)
+                      and all(l.startswith(" " * kk) for l in out.split("\n") if l.strip())
+                      and mods["formatting"].indentation_level(out) == kk)
+                hist["snippet:" + ("ok" if ok else "changed")] += 1
+                if not ok:
+                    failing.append({"site": "main.format_code", "stage": "format_code", "input": sn, "output": out,
+                                    "problem": f"indented snippet (indent {kk}): the result is not the input's "
+                                               "program at the input's indentation"})
         add_files("post", "nat * string * string", "long_case_ok", pitems, pinfo, 60)
 
         # ---- 3b. the quote-restoration step: every real call seen during the sweep vs RestoreModel, and the
@@ -1017,6 +1062,11 @@ def check(run: common.Run):
         fseen, fitems, finfo = set(), [], []
         for fr in pr.frames:
             cur, n = fr["cur"], fr["n"]
+            # format_with_black has a dedent / re-indent frame of its own; it is dead code as long as
+            # fix_line_lengths hands it code whose indentation level is 0 (checked here on every call)
+            if mods["formatting"].indentation_level(fr["black"][0]) != 0:
+                hist["frame:black-input-indented"] += 1
+                disagreements_early.append({"file": "frame", "case": ("format_with_black got indented code", cur, n)})
             if any(ch.isspace() and ch not in " \n" for ch in cur):
                 hist["frame:outside-domain"] += 1
                 continue
@@ -1075,8 +1125,13 @@ def check(run: common.Run):
         new = [rnd.choice(LINES) for _ in range(rnd.randint(0, 6))]
         scripts.append(differ_script(old, new))
     for sc in scripts:
-        with common.quiet():
-            out, new = run_minimize(mods, sc)
+        try:
+            with common.quiet():
+                out, new = run_minimize(mods, sc)
+        except Exception as e:  # noqa
+            crashed("processing.minimize_whitespace_line_differences", "minimize_ws", "".join(l for _, l in sc), e,
+                    script=sc)
+            continue
         out_lines = out.splitlines(keepends=True)
         mitems.append(minimize_case(sc, out_lines))
         minfo.append(("minimize_ws", sc, out))
@@ -1092,9 +1147,13 @@ def check(run: common.Run):
     iitems, iinfo = [], []
     for src in import_sources(run.tier, rnd):
         mods["core"].parse.cache_clear()
-        with common.quiet():
-            pairs = import_pairs(mods, src)
-            out = mods["fixes"].fix_import_spacing(src)
+        try:
+            with common.quiet():
+                pairs = import_pairs(mods, src)
+                out = mods["fixes"].fix_import_spacing(src)
+        except Exception as e:  # noqa
+            crashed("fixes.fix_import_spacing", "import_spacing", src, e)
+            continue
         iitems.append(import_case(src, pairs, out))
         iinfo.append(("import_spacing", src, out))
         hist["import:" + ("changed" if out != src else "same")] += 1
@@ -1139,7 +1198,9 @@ def check(run: common.Run):
         for f in kf:
             if f.kind == "finding" and f.id in WITNESSES:
                 st, w = WITNESSES[f.id]
-                r = pr.prepass(w)
+                r = safe_prepass(pr, w)
+                if r is None:
+                    continue
                 a, b = r[st]
                 prob = stage_oracle(st, a, b)
                 ma = literal_mask(a)
@@ -1151,7 +1212,11 @@ def check(run: common.Run):
                     common.log(f"note: known finding {f.id} no longer reproduces")
             elif f.kind == "fixed" and f.id in FIXED_WITNESSES:
                 for w in FIXED_WITNESSES[f.id]:
-                    out, _ = pr.full(w)
+                    try:
+                        out, _ = pr.full(w)
+                    except Exception as e:  # noqa
+                        crashed("main.format_code", "format_code", w, e)
+                        continue
                     if ast_key(out) != ast_key(w):
                         failing.append({"site": "main.format_code", "stage": "format_code", "input": w,
                                         "output": out, "problem": f"repaired defect {f.id} is back"})
@@ -1204,7 +1269,7 @@ def check(run: common.Run):
         explained_by_known_findings=dict(explained),
         sweep={"format_code_runs": n_e2e, "corpus": len(corpus), "line_lengths": LINE_LENGTHS,
                "oracle": "ast.dump equal (docstring whitespace and the u prefix ignored)",
-               "post_pass_stage_calls_checked": post_calls},
+               "post_pass_stage_calls_checked": post_calls, "indented_snippets": n_snip},
         unmodelled=["black.format_str (line wrapping)", "compactify.format_code",
                     "fixes.fix_line_lengths: statement ranges, elif handling, what black does between dedent and re-indent "
                     "(the dedent/re-indent frame IS modelled: FrameModel.v)",
